@@ -18,3 +18,11 @@ Print Assumptions C13_holds.
 (* non-vacuity: the hypothesis is satisfiable (star with a manager-only endpoint, XY/ID/SRC mesh, tree) *)
 Example C13_nonvacuous : forallb accepted [ex_star ID; ex_star SRC; ex_mesh XY; ex_mesh SRC; ex_tree ID] = true.
 Proof. vm_compute. reflexivity. Qed.
+
+(* Part 3: entry k of the address map is the rule the index enumeration names k.  `exp` lists, for every declared
+   range of every subordinate instance, the member name the description implies (instance name, range tag or
+   position, "SamIdx") with the range's bounds; the checker evaluated on the real output is sound for: the member
+   exists and the rule at the index it denotes has exactly these bounds. *)
+Theorem C13_named_entries_sound : forall n exp, chk_C13n n exp = [] -> C13_on n /\ C13_named_on n exp.
+Proof. exact chk_C13n_sound. Qed.
+Print Assumptions C13_named_entries_sound.
